@@ -53,17 +53,29 @@ def log(*a):
 # Coq build
 # --------------------------------------------------------------------------
 class Lock:
+    """Exclusive flock, re-entrant within the process (the Coq tree is shared by concurrently running checks)."""
+    _held: dict = {}
+
     def __init__(self, path):
-        self.path = path
+        self.path = str(path)
 
     def __enter__(self):
-        self.f = open(self.path, "w")
-        fcntl.flock(self.f, fcntl.LOCK_EX)
+        h = Lock._held.get(self.path)
+        if h:
+            h[1] += 1
+            return self
+        f = open(self.path, "w")
+        fcntl.flock(f, fcntl.LOCK_EX)
+        Lock._held[self.path] = [f, 1]
         return self
 
     def __exit__(self, *a):
-        fcntl.flock(self.f, fcntl.LOCK_UN)
-        self.f.close()
+        h = Lock._held[self.path]
+        h[1] -= 1
+        if h[1] == 0:
+            fcntl.flock(h[0], fcntl.LOCK_UN)
+            h[0].close()
+            del Lock._held[self.path]
 
 
 def coq_files():
@@ -118,6 +130,10 @@ class CoqResult:
 
 def coq_make(targets: list[str], jobs=8, timeout=3000) -> tuple[bool, str]:
     with Lock(COQ / ".lock"):
+        # the generated tables are re-emitted from $VERIF_REPO under the same lock as the build that consumes them:
+        # checks of different trees (seed tests) may run side by side on the shared Coq tree
+        from tools import translate
+        translate.main(quiet=True)
         regen_coqproject()
         p = subprocess.run(["bash", "-c", 'ulimit -v 12000000; exec timeout "$@"', "_", str(timeout), "make", f"-j{jobs}"] + targets, cwd=COQ,
                            stdout=subprocess.PIPE, stderr=subprocess.STDOUT, text=True)
@@ -173,10 +189,13 @@ def coq_check_props(prop_id: str, clean=False) -> CoqResult:
         # sources (a `make clean` in the shared tree would pull the rug from under concurrent checks)
         workdir = BUILD / f"clean_{prop_id}_{os.getpid()}"
         shutil.rmtree(workdir, ignore_errors=True)
-        for sub in ("Gen", "Model", "Proofs", "Props"):
-            (workdir / sub).mkdir(parents=True, exist_ok=True)
-            for f in (COQ / sub).glob("*.v"):
-                shutil.copy(f, workdir / sub / f.name)
+        with Lock(COQ / ".lock"):
+            from tools import translate
+            translate.main(quiet=True)
+            for sub in ("Gen", "Model", "Proofs", "Props"):
+                (workdir / sub).mkdir(parents=True, exist_ok=True)
+                for f in (COQ / sub).glob("*.v"):
+                    shutil.copy(f, workdir / sub / f.name)
         (workdir / "_CoqProject").write_text("-Q . NP\n" + "\n".join(coq_files()) + "\n")
         subprocess.run(["coq_makefile", "-f", "_CoqProject", "-o", "Makefile"], cwd=workdir,
                        stdout=subprocess.DEVNULL, stderr=subprocess.DEVNULL)
@@ -185,14 +204,22 @@ def coq_check_props(prop_id: str, clean=False) -> CoqResult:
         ok, out = pm.returncode == 0, pm.stdout
         CLEAN_DIRS[prop_id] = workdir
     else:
-        ok, out = coq_make([f"Props/{prop_id}.vo"])
+        outer = Lock(COQ / ".lock")
+        outer.__enter__()
+        try:
+            ok, out = coq_make([f"Props/{prop_id}.vo"])
+            if ok:
+                p = subprocess.run(["bash", "-c", 'ulimit -v 12000000; exec timeout "$@"', "_", "900", "coqc", "-Q", ".", "NP", f"Props/{prop_id}.v"], cwd=workdir,
+                                   stdout=subprocess.PIPE, stderr=subprocess.STDOUT, text=True)
+        finally:
+            outer.__exit__()
     if not ok:
         r.ok = False
         r.errors.append("coq build failed:\n" + out[-3000:])
         r.make_s = time.time() - t0
         return r
     # recompile the property file itself for fresh Print Assumptions output
-    with Lock(COQ / ".lock"):
+    if clean:
         p = subprocess.run(["bash", "-c", 'ulimit -v 12000000; exec timeout "$@"', "_", "900", "coqc", "-Q", ".", "NP", f"Props/{prop_id}.v"], cwd=workdir,
                            stdout=subprocess.PIPE, stderr=subprocess.STDOUT, text=True)
     if p.returncode != 0:
@@ -229,6 +256,11 @@ def coq_check_props(prop_id: str, clean=False) -> CoqResult:
 def build_model(entry: str) -> Path:
     """Extract NP.Model.<entry>.handle to OCaml and link the line driver.
     Rebuilt when the entry's .vo or the driver is newer than the binary."""
+    with Lock(COQ / ".lock"):
+        return _build_model_locked(entry)
+
+
+def _build_model_locked(entry: str) -> Path:
     ok, out = coq_make([f"Model/{entry}.vo"])
     if not ok:
         raise RuntimeError("model build failed:\n" + out[-3000:])
